@@ -96,6 +96,21 @@ def exec_monitor(run):
                     yield f'tick {t}: completed operator {o} changed state to {OST[sts[o]].value}'
             done |= {i for i, x in enumerate(sts) if x == Cc}
         if e['err']:
+            # a refused command: the only state changes allowed are the claims PENDING/FAILED -> ASSIGNED made by the
+            # Assignment objects of the batch before the refusal (and, when the executor had started, documented moves);
+            # the per-state counts always equal the histogram of the states
+            before = run.trace[t - 1]["states"] if t > 0 else [P] * len(e["states"])
+            started = e.get('pre_states') is not None
+            for o, (x0, x1) in enumerate(zip(before, e['states'])):
+                if x0 != x1 and not started and not (x0 in (P, F) and x1 == A):
+                    yield (f'tick {t}: the command was refused ({e.get("exc", "")[:50]}) but operator {o} went '
+                           f'{OST[x0].value} -> {OST[x1].value}, which is not a claim of the refused batch')
+            for k, cnt in enumerate(e.get('counts') or []):
+                first = run.w.first[k]
+                n = len(run.r['pipes'][k][1])
+                hist = [sum(1 for i in range(first, first + n) if e['states'][i] == s_) for s_ in range(6)]
+                if cnt != hist:
+                    yield f'tick {t}: after the refused command pipeline {k} state_counts {cnt} differ from the histogram {hist}'
             continue
         for a in e['cmd']['asg']:
             for o in a[0]:
